@@ -264,6 +264,20 @@ def run_unit(scratch: core.Scratch, units: list[dict], results: dict, texts: dic
             "times_ms": js.get("times-ms", {}).get("total") if isinstance(js.get("times-ms"), dict) else None,
             "rewrites": meta["rewrites"], "functions_spliced": [s["fn"] for s in meta["spliced"]],
             "diff_file": "evidence/C13-verus/shipped_vs_verified.diff"}
+    # per-function solver time and success as reported by Verus itself
+    fn_times: dict[str, dict] = {}
+    try:
+        for mod in js["times-ms"]["smt"]["smt-run-module-times"]:
+            for fb in mod.get("function-breakdown", []):
+                short = fb["function"].split("::")[-1]
+                rec = fn_times.setdefault(short, {"solver_s": 0.0, "rlimit": 0, "success": True, "queries": 0})
+                rec["solver_s"] += fb.get("time-micros", 0) / 1e6
+                rec["rlimit"] += fb.get("rlimit", 0)
+                rec["success"] = rec["success"] and bool(fb.get("success", True))
+                rec["queries"] += 1
+    except Exception:
+        pass
+    info["per_function"] = fn_times
     stderr = r["stderr"]
     # map errors to functions: verus prints `error: postcondition not satisfied` / `--> file:line:col`
     failing: dict[str, list] = {}
@@ -315,7 +329,11 @@ def run_unit(scratch: core.Scratch, units: list[dict], results: dict, texts: dic
         elif "?" in failing:
             results[u["obligation"]] = {"status": "undecided", "reason": "a verus error could not be attributed to a function", "failed_checks": failing["?"], "stubs": [], "raw": stderr[-3000:]}
         else:
-            results[u["obligation"]] = {"status": "verified", "reason": "", "failed_checks": [], "stubs": [], "solver_s": None}
+            ft = fn_times.get(fn)
+            if ft is None and fn not in ("is_special", "is_ascii_whitespace", "new"):
+                results[u["obligation"]] = {"status": "undecided", "reason": f"verus reported no SMT query for {fn} (function not verified?)", "failed_checks": [], "stubs": []}
+            else:
+                results[u["obligation"]] = {"status": "verified", "reason": "", "failed_checks": [], "stubs": [], "solver_s": round(ft["solver_s"], 4) if ft else None, "checks_total": ft["queries"] if ft else None}
     if not compile_failed and probes_vacuous:
         for u in units:
             if results[u["obligation"]]["status"] == "verified":
